@@ -823,6 +823,16 @@ func (x *g) strExpr(d int) expr {
 			return expr{x.tmplLit(d), 17}
 		}
 	case 5:
+		if x.chance("numbermember", 3) {
+			// member access on a number literal: the dot of the access must not merge with the number
+			x.feat("member-on-number-literal")
+			n := x.pick("numlit4member", []string{"(1.0)", "(10)", "(0.5)", "(1e3)", "(0x10)", "(5.)", "(.5)", "(1000000)", "1.5", "1..", "(0)"})
+			if n == "1.." {
+				return expr{"1..toFixed(" + fmt.Sprint(x.n("fixed", 2)) + ")", 16}
+			}
+			m := x.pick("nummember", []string{".toFixed(1)", ".toString()", "[\"toFixed\"](2)", ".toString(2)", "[\"toString\"]()"})
+			return expr{n + m, 16}
+		}
 		a := x.anyExpr(d - 1)
 		x.feat("typeof")
 		return expr{"typeof " + x.par(a, 14), 14}
